@@ -7,6 +7,19 @@ ROOT = os.path.dirname(os.path.dirname(os.path.abspath(__file__)))
 
 # pid -> (technique, level text, level note, design ref)
 CLAIMED = {
+    "C04": ("bounded-exhaustive enumeration of all ordered forests (<=5..7 nodes, depth<=5) per vendor through the real join/split/parse_to_tree, compared with the tree and with an independent renderer",
+            "For each of the 14 registered vendors every in-domain forest up to the bound is rendered and parsed back (tree equality incl. "
+            "order), re-rendered (fixed point), rendered through annet gen's format_config_blocks, compared character by character with an "
+            "independent vendor-syntax printer, and device-style text from that printer is parsed to the same tree.",
+            "Trusted: mc/ref/vendortext.py (alphabets, syntactic domain rules, reference printers); enumeration completeness cross-checked by an independent counting recurrence.",
+            "DESIGN.md §3 C04"),
+    "C05": ("explicit-state BFS to closure over the real indent-stack generators' frame state, lock-step with a reference offside machine; plus exhaustive texts up to 5-7 lines",
+            "All reachable states (indents, curr_level, g_level, stack read from gi_frame.f_locals) of the real _stacked/_stripped_indents "
+            "chain under an alphabet of 435 events are explored to closure and every transition compared with an independent offside machine "
+            "(paths, ParserError exactly where the reference refuses); all texts up to the line bound go through parse_to_tree with the Common "
+            "and Huawei splitters and are compared with the reference tree.",
+            "Trusted: mc/ref/offside.py; tabs count one column in both models; line/number/level frame locals excluded from the state (argued in the check).",
+            "DESIGN.md §3 C05"),
     "C07": ("bounded-exhaustive enumeration of (pattern,row) pairs on the real compiler vs a reference token matcher",
             "Every pattern of the rule grammar up to 4 tokens is run against every row up to 5 words through the real "
             "compile_row_regexp/_make_reverse and compared with an independent token-walking matcher; every shipped rule "
